@@ -1470,6 +1470,38 @@ func (m *metadataAPI) GetConsumerGroup(id string) *consumerGroup {
 func (m *metadataAPI) Reset() error {
 	m.mu.Lock()
 	defer m.mu.Unlock()
+	return m.reset()
+}
+
+// ResetForRestore clears all existing state in the metadata store like Reset
+// so that it can be replaced with the state of a snapshot containing the given
+// streams. Existing streams which are not in the snapshot were deleted by an
+// operation the snapshot covers, so they are deleted along with their on-disk
+// data rather than just closed. Otherwise, the data would be picked up by a
+// stream created with the same name later.
+func (m *metadataAPI) ResetForRestore(streams []*proto.Stream) error {
+	restored := make(map[string]struct{}, len(streams))
+	for _, stream := range streams {
+		restored[stream.Name] = struct{}{}
+	}
+	m.mu.Lock()
+	defer m.mu.Unlock()
+	for _, stream := range m.getStreams() {
+		if _, ok := restored[stream.GetName()]; ok {
+			continue
+		}
+		if err := m.deleteStreamData(stream); err != nil {
+			return err
+		}
+		delete(m.streams, stream.GetName())
+	}
+	return m.reset()
+}
+
+// reset closes all streams and consumer groups and clears all existing state
+// in the metadata store. The metadata API mutex must be held when calling
+// this.
+func (m *metadataAPI) reset() error {
 	for _, stream := range m.getStreams() {
 		if err := stream.Close(); err != nil {
 			return err
@@ -1567,6 +1599,16 @@ func (m *metadataAPI) LostLeadership() {
 
 // deleteStream deletes the stream and the associated on-disk data for it.
 func (m *metadataAPI) deleteStream(stream *stream, epoch uint64) error {
+	if err := m.deleteStreamData(stream); err != nil {
+		return err
+	}
+	m.removeStream(stream, epoch)
+	return nil
+}
+
+// deleteStreamData stops the stream's partitions and deletes the on-disk data
+// for the stream. It does not remove the stream from the metadata store.
+func (m *metadataAPI) deleteStreamData(stream *stream) error {
 	err := stream.Delete()
 	if err != nil {
 		return errors.Wrap(err, "failed to delete stream")
@@ -1578,8 +1620,6 @@ func (m *metadataAPI) deleteStream(stream *stream, epoch uint64) error {
 	if err != nil {
 		return errors.Wrap(err, "failed to delete stream data directory")
 	}
-
-	m.removeStream(stream, epoch)
 	return nil
 }
 
